@@ -139,11 +139,13 @@ def rules(ctx: Ctx) -> None:
     if not lower_default:
         raise AnalysisError("normaliser: no `return name.lower()` default branch found; refusing to judge an unknown shape")
     quote_consts = None
+    # the quote characters: a literal collection of strings the normaliser iterates over (directly, through a local or a named constant)
     for n in prog.walk_fn(N):
-        if isinstance(n, ast.Assign) and isinstance(n.value, (ast.List, ast.Tuple, ast.Set)):
-            v = prog.try_fold(n.value, N.mod, N)
-            if isinstance(v, (list, tuple, set)) and set(v) & {'"', "`"}:
-                quote_consts = (n.targets[0].id if isinstance(n.targets[0], ast.Name) else None, set(v))
+        if isinstance(n, (ast.For, ast.comprehension)):
+            for src in prog.value_sources(N, n.iter):
+                v = prog.try_fold(src, N.mod, N) if isinstance(src, (ast.List, ast.Tuple, ast.Set, ast.Name, ast.Attribute)) else None
+                if isinstance(v, (list, tuple, set, frozenset)) and set(v) & {'"', "`"}:
+                    quote_consts = (None, (quote_consts[1] if quote_consts else set(v)) & set(v))
     ctx.ob("R16.3", "quote-characters", quote_consts is not None and {'"', "`"} <= quote_consts[1], N.loc(),
            f"the normaliser knows double quotes and backticks as quote characters ({sorted(quote_consts[1]) if quote_consts else None})")
     # quoted branch: some return that does not lower-case, reached under a containment test `q in name`
@@ -157,8 +159,8 @@ def rules(ctx: Ctx) -> None:
             for k in ast.walk(e):
                 if isinstance(k, ast.Compare) and len(k.ops) == 1 and isinstance(k.ops[0], ast.In) and u(k.comparators[0]) == pname:
                     containment = True
-                if isinstance(k, ast.Subscript) and u(k.value) == pname and quote_consts and (quote_consts[0] and quote_consts[0] in t):
-                    positional = True
+                if isinstance(k, ast.Subscript) and u(k.value) == pname:
+                    positional = True  # a test on name[0] / name[-1]: matching first / last characters
     ctx.ob("R16.3", "quoted-names-detected-by-containment", containment and not positional, N.loc(),
            "a name is treated as quoted when a quote character occurs anywhere in it (a dotted name inside one pair of quotes is split before it is normalised, so each part "
            "carries only one quote): the quoted branch must be guarded by `q in name`, not by matching first/last characters")
@@ -182,7 +184,11 @@ def rules(ctx: Ctx) -> None:
         f = prog.fn(fq)
         ctx.touched(f)
         rng = [k for k in prog.walk_fn(f) if isinstance(k, ast.Call) and isinstance(k.func, ast.Name) and k.func.id == "range" and len(k.args) == 3]
-        backward = any(prog.try_fold(k.args[2], f.mod, f) == -1 for k in rng) and any(isinstance(k, ast.Break) for k in prog.walk_fn(f))
+        back_rngs = [k for k in rng if prog.try_fold(k.args[2], f.mod, f) == -1]
+        # the first hit of the backward scan is taken: a loop that breaks, or next() over a generator
+        first_hit = any(isinstance(k, ast.Break) for k in prog.walk_fn(f)) or any(
+            isinstance(a, ast.Call) and isinstance(a.func, ast.Name) and a.func.id == "next" for k in back_rngs for a in prog.ancestors(k))
+        backward = bool(back_rngs) and first_hit
         ctx.ob("R16.4", "factory-scans-for-the-last-dot", backward, f.loc(), "the sqlfluff table factory scans the reference's segments backwards and stops at the first (= last) dot")
     scope.scope_map_rules(ctx, "R16.4")
 
